@@ -226,6 +226,12 @@ def run(ck):
             ps = ps[:-1]                 # a parameter left unresolved
         reqs.append(("rewrite", "Q %s;%s;%s" % (",".join(vs), ",".join(ps), f), f))
 
+    # directed parameter rewriting: every node kind (logical negation, && / ||, comparison, conditional, unary
+    # minus, power<n> special and general, **, unary and binary functions) with a parameter below it
+    for f in ["!x > y ? x : -y", "x > y && !y < 1 ? x**y : power<17>(y)", "x > 0 || !y > 0 ? max(x,y) : -(y**33)",
+              "-y*x + sin(y)/2**y", "!x < 1 && !y < 1 || y > x ? power<3>(y) : exp(-y)", "x - -y", "y > 1 ? -x : y**-2"]:
+        reqs.append(("rewrite", "Q x;y;" + f, f))
+        reqs.append(("rewrite", "Q ;x,y;" + f, f))
     lines = [r[1] for r in reqs]
     ck.log("%d requests generated" % len(lines))
     impl, crashes = L.run_lines(ck, exe, lines, timeout=1800)
